@@ -232,6 +232,8 @@ pub fn connect_edges<F>(sorted_events: &[Rc<SweepEvent<F>>]) -> Vec<Contour<F>>
 where
     F: Float,
 {
+    #[cfg(feature = "verif-hooks")]
+    crate::verif_hooks::on_connect_start();
     let result_events = order_events(sorted_events);
 
     let iteration_map = precompute_iteration_order(&result_events, |a, b| a.point == b.point, |e| e.is_left());
@@ -247,6 +249,8 @@ where
             continue;
         }
 
+        #[cfg(feature = "verif-hooks")]
+        crate::verif_hooks::on_contour();
         let contour_id = contours.len() as i32;
         let mut contour = Contour::initialize_from_context(&result_events[i as usize], &mut contours, contour_id);
 
